@@ -32,7 +32,7 @@ ASSUMPTIONS = [
     "termination restated as a bound: at most 200 resampling rounds per step (the correct algorithm needs more with probability < 2^-190); wall-clock watchdog firing = inconclusive",
     "density clause judged for |gamma| >= 1e-3 only (statement: above rounding level); at zero force only bound, symmetry-free, and termination are judged",
 ]
-REQUIRED = {"steps_after_retuning": 200, "tail_tests": 10, "steps": 1500, "steps_huge_force": 100, "steps_zero_force": 50, "steps_per_coordinate_delta": 100, "ks_tests": 12, "rounds_observed": 1500, "adaptive_steps": 50, "masses_updated_after_construction": 100}
+REQUIRED = {"steps_after_retuning": 200, "tail_tests": 10, "steps": 1500, "steps_huge_force": 100, "steps_zero_force": 50, "steps_per_coordinate_delta": 100, "ks_tests": 12, "adaptive_steps": 50, "masses_updated_after_construction": 100}
 SHARD_TIMEOUT = {"quick": 900, "thorough": 3000}
 MAX_ROUNDS = 200
 
